@@ -6,6 +6,7 @@ import (
 	"bytes"
 	"context"
 	"encoding/binary"
+	"errors"
 	"fmt"
 	"net"
 	"strings"
@@ -709,6 +710,28 @@ func (st *ex6State) oracle(v *vio) {
 		}
 		if len(other) > 0 {
 			v.add("Y-extra-tx", "%s: transmitted %d message(s) that are neither SOLICIT nor REQUEST", name, len(other))
+		}
+		// a failing exchange fails because nothing acceptable arrived: no-response error, after
+		// the configured number of transmissions of the message it was waiting on
+		if o.returned && o.err != nil && len(sol)+len(req) > 0 {
+			phase := sol
+			if len(req) > 0 {
+				phase = req
+			}
+			if !errors.Is(o.err, nclient6.ErrNoResponse) {
+				if len(req) == 0 && strings.Contains(o.err.Error(), "ADVERTISE") {
+					// the advertise could not be turned into a request (no client/server id, ...): the caller's input
+				} else {
+					v.add("Y-fail-error", "%s: failed with %v, want the no-response error (nobody cancelled anything and no socket operation failed)", name, o.err)
+				}
+			} else {
+				if len(phase) != st.tries {
+					v.add("Y-fail-count", "%s: gave up after %d transmission(s) of its last message, configured tries = %d", name, len(phase), st.tries)
+				}
+				if want := st.T * time.Duration((int64(1)<<uint(st.tries))-1); !st.stall && o.retT-phase[0].t != want {
+					v.add("Y-fail-duration", "%s: gave up %v after first transmitting its last message, want exactly %v (T=%v, tries=%d)", name, o.retT-phase[0].t, want, st.T, st.tries)
+				}
+			}
 		}
 		// the transaction ids this call used on the wire
 		var xs, xr uint32
